@@ -205,3 +205,40 @@ func VerifHarness_C01_PredicateKinds() {
 	vsymAssert(!keep || out == line, "a kept record keeps its line")
 	vsymReach("C01_predicate_kinds")
 }
+
+// C19-O2c: `p or q` returns what p and q return alone: a record selected only
+// by q comes back as q alone returns it, whatever the rejected operand p did to
+// the labels on its way to rejecting it (a typed filter flags __error__ on an
+// unparsable value and keeps; a following `and` operand may still reject).
+func VerifHarness_C19_OrRejectedOperandLeavesNoTrace() {
+	line := vsymString("line", 1)
+	mk := func() LabelSet {
+		set := newLabelSet()
+		set.Set("a", pcommon.NewValueStr("notanumber"))
+		set.Set("b", pcommon.NewValueStr("q"))
+		set.Set("c", pcommon.NewValueStr("x"))
+		return set
+	}
+	typed := []logql.LabelPredicate{
+		&logql.NumberFilter{Label: "a", Op: logql.OpGt, Value: 5},
+		&logql.DurationFilter{Label: "a", Op: logql.OpGt, Value: time.Second},
+		&logql.BytesFilter{Label: "a", Op: logql.OpGt, Value: 1},
+	}[vsymChoice("typed", 3)]
+	rejecting := &logql.LabelPredicateBinOp{Left: typed, Op: logql.OpAnd, Right: &logql.LabelMatcher{Label: "b", Op: logql.OpEq, Value: "no", Re: verifAnyRe}}
+	accepting := &logql.LabelMatcher{Label: "c", Op: logql.OpEq, Value: "x", Re: verifAnyRe}
+	var pred logql.LabelPredicate = &logql.LabelPredicateBinOp{Left: &logql.LabelPredicateParen{X: rejecting}, Op: logql.OpOr, Right: accepting}
+	if vsymBool("swap") {
+		pred = &logql.LabelPredicateBinOp{Left: accepting, Op: logql.OpOr, Right: &logql.LabelPredicateParen{X: rejecting}}
+	}
+	proc, err := buildLabelPredicate(pred)
+	vsymAssert(err == nil, "the predicate builds")
+	set := mk()
+	out, keep := proc.Process(1, line, set)
+	vsymAssert(keep && out == line, "`p or q` keeps the record q keeps, line intact")
+	if !verifNoErr(set) {
+		vsymFinding("F44", true, "`p or q` returns a record selected by q alone with the __error__ label that the rejected operand p set on its way to rejecting it (`(a > 5 and b=\"no\") or c=\"x\"` on a record whose a is not a number): the result differs from q's and from `q or p`")
+		return
+	}
+	vsymAssert(verifNoErr(set), "a record selected by q alone carries the labels q alone gives it")
+	vsymReach("C19_or_no_trace")
+}
